@@ -25,9 +25,9 @@ def oracle_automaton(c: Case, tr: Trace) -> Optional[str]:
         t = p[0]
         i = int(p[1])
         if t == 'E':
-            stack.append([i, 'fresh'])
+            stack.append([i, 'fresh', u])
             continue
-        if t in ('ra', 'sc', 'ss', 'sd'):
+        if t in ('ra', 'sc', 'ss', 'sd', 'rp'):
             continue
         if not stack:
             return f"event '{l}' outside any invocation"
@@ -38,6 +38,8 @@ def oracle_automaton(c: Case, tr: Trace) -> Optional[str]:
             if top[1] != 'fresh':
                 return f"second start for one invocation of rule {i}"
             top[1] = 'started'
+            if len(p) > 5 and p[5] != '0':
+                top[2] = True       # the second control family defines unwind()
         elif t in ('ap', 'a0'):
             if top[1] != 'started':
                 return f"action call for rule {i} in state {top[1]} (must be after start, before the closing hook, at most once)"
@@ -58,12 +60,12 @@ def oracle_automaton(c: Case, tr: Trace) -> Optional[str]:
                 if ctl and wrap == 'none' and c.cfg.fam == 0:
                     ok = False      # a rule visible to the control must have received start
             elif st in ('started', 'acted'):
-                ok = (r == 2 and not u)
+                ok = (r == 2 and not top[2])
             else:
                 k = st[1]
-                ok = (k == r and (r != 2 or u)) or (k == 1 and r == 2)
+                ok = (k == r and (r != 2 or top[2])) or (k == 1 and r == 2)
             if not ok:
-                return f"rule {i} returned {r} but its hooks ended in state {st} (unwind() available: {u})"
+                return f"rule {i} returned {r} but its hooks ended in state {st} (unwind() available: {top[2]})"
             stack.pop()
     if stack:
         return f"invocations left open at the end: {stack}"
@@ -171,6 +173,7 @@ def run(tier: str) -> int:
                                     ctx_names=['top', 'sor-first', 'seq-tail', 'in-tcrf', 'in-must', 'in-at']),
         profiles.random_profile('rnd', False, True, 20, 100, ORACLES, actions_mode='throw',
                                 inputs=profiles.inputs_exhaustive(4, 6, cap_q=150, cap_t=900), per_tu=2, configs=cfg),
+        profiles.control_profile('cc', 8, 50, ORACLES, actions_mode='throw', per_tu=2),
     ]
     return engine.run_engine('C08', tier, ['PegtlVerif.Props.C08'], ps,
                              extra=lambda v, cov, rng: coverage_part(v, cov, rng, tier))
